@@ -155,6 +155,16 @@ func init() {
 			in.noMerge = !(t.IsConst() && t.u == 1) || os.Getenv("VERIF_NOMERGE") != ""
 			return unit(), true
 		},
+		"vUninterp2": func(in *Interp, fn *ssa.Function, a []Value, s ssa.Instruction) (Value, bool) {
+			// an uninterpreted function of two floats (one function per engine run): only
+			// f(a,b) = f(a',b') for equal arguments is known of it
+			x, y := in.term(a[0]), in.term(a[1])
+			if in.ex.concrete {
+				// concrete mode: any fixed function will do
+				return in.tt.Float(0, in.cfg.Dom), true
+			}
+			return in.tt.UF("vh_uninterp2", in.cfg.Dom, 0, x, y), true
+		},
 		"vLeanAsserts": func(in *Interp, fn *ssa.Function, a []Value, s ssa.Instruction) (Value, bool) {
 			t := in.term(a[0])
 			in.ex.leanAsserts = t.IsConst() && t.u == 1
